@@ -19,7 +19,7 @@ func init() {
 		Explanation: "well-formedness of bf.Dimacs: the variable count of the header is the size of the map in which every function that hands out a variable index records it (fresh index = size+1, stored under the same path), every literal put into a clause comes from these functions or is the negation of such a value, the clause count of the header is the length of the slice that is then ranged over with exactly one unconditional clause line written per iteration; " +
 			"plus, for the translation that is printed, the structural clauses of C11: exhaustive dispatch (R11.1), identity elements (R11.2), truth tables of the derived connectives (R11.5), guard coverage (R11.6).",
 		NotDecided: "equality of the model sets of the export and of the formula (projection on the named variables); nothing is executed.",
-		Rules:      []ruleFn{ruleR12_1, ruleR12_2, ruleR11_1, ruleR11_2, ruleR11_5, ruleR11_6, ruleR11_7, ruleR11_9, ruleR12_3, ruleR12_4, ruleR11_10, ruleR11_11},
+		Rules:      []ruleFn{ruleR12_1, ruleR12_2, ruleR11_1, ruleR11_2, ruleR11_5, ruleR11_6, ruleR11_7, ruleR11_9, ruleR12_3, ruleR12_4, ruleR11_10, ruleR11_11, ruleR12_5},
 	})
 }
 
